@@ -941,11 +941,9 @@ class TypeBlocks(ContainerOperand):
         '''
         func = partial(np.round, decimals=decimals)
         # for now, we do not expose application of rounding on a subset of blocks, but is doable by setting the column_key
-        return self.__class__(
-                blocks=list(self._ufunc_blocks(column_key=NULL_SLICE, func=func)),
-                dtypes=self._dtypes.copy(), # list
-                index=self._index.copy(),
-                shape=self._shape
+        return self.from_blocks(
+                self._ufunc_blocks(column_key=NULL_SLICE, func=func),
+                shape_reference=self._shape,
                 )
 
     def __len__(self) -> int:
